@@ -39,6 +39,7 @@ type appTxJ struct {
 type appCase struct {
 	Blocks   [][]appTxJ `json:"blocks"`
 	Restarts []bool     `json:"restarts"` // replica B restarts before block i
+	Reexec   []bool     `json:"reexec,omitempty"` // replica B is stopped after committing block i, reopened, and executes block i once more (what recovery does after a crash between the application's commit and the node's own)
 	Workers  int        `json:"workers"`  // replica B's verifier routines
 }
 
@@ -46,6 +47,8 @@ var appKeys = []string{
 	"7d73c3dafd3c0215b8526b26f8dbdb93242fc7dcfbdfa1000d93436d577c3b94",
 	"b71c71a67e1177ad4e901695e1b4b9ee17ae16c6668d313eac2f96dbcda3f291",
 	"45a915e4d060149eb4365960e6a7a45f334393093061116b197e3240065ff2d8",
+	// a fourth sender no source chain uses: its first transaction is valid wherever it is slipped in
+	"8a1f9a8f95be41cd7ccb6168179afb4504aefe388d1e14474d32c45c72ce7b7a",
 }
 
 func signAppTx(tx *etypes.Transaction, key int, badV bool) []byte {
@@ -71,6 +74,8 @@ func genAppCase(r *Rng, i int) *appCase {
 	counterInit := common.Hex2Bytes("600a600c600039600a6000f3" + "60005460010160005500")
 	// runtime: c = sload(0)+1; sstore(0,c); mstore(0,c); log0(0,32)
 	loggerInit := common.Hex2Bytes("6013600c60003960136000f3" + "6000546001018060005560005260206000a000")
+	// runtime: sstore(k, blockhash(number-d)) for d = 2, 1, 3: what BLOCKHASH answers becomes part of the state
+	hashrecInit := common.Hex2Bytes("601c600c600039601c6000f3" + "4360029003406000554360019003406001554360039003406002" + "5500")
 	type created struct {
 		key   int
 		nonce uint64
@@ -79,6 +84,12 @@ func genAppCase(r *Rng, i int) *appCase {
 	for b := 0; b < nb; b++ {
 		var blk []appTxJ
 		pending := append([]uint64{}, next...)
+		if b == 0 && i < 2*len(modexpPats) {
+			// the first cases walk through every combination of length words of the modexp precompile
+			tx := etypes.NewTransaction(0, common.BytesToAddress([]byte{5}), big.NewInt(0), 1000000, big.NewInt(0), modexpPayloadPat(r, i%len(modexpPats), i/len(modexpPats)))
+			blk = append(blk, appTxJ{Kind: "evm", From: 0, Nonce: 0, Ok: true, Raw: hexs(signAppTx(tx, 0, false)), Note: "next-nonce call modexp modexp-lengths directed"})
+			pending[0]++
+		}
 		for t := 0; t < r.Intn(7); t++ {
 			key := r.Intn(3)
 			nonce := pending[key]
@@ -102,15 +113,30 @@ func genAppCase(r *Rng, i int) *appCase {
 				tj = appTxJ{Kind: "evm", From: key, Nonce: nonce, Ok: true, Raw: hexs(signAppTx(tx, key, false)), Note: note + " call-created"}
 			case k < 5: // transfer / call to an arbitrary address, precompiles included
 				to := common.BytesToAddress([]byte{byte([]int{1, 2, 3, 4, 5, 6, 7, 8, 9, 254, 0xc1, 0}[r.Intn(12)])})
-				tx := etypes.NewTransaction(nonce, to, big.NewInt(0), 1000000, big.NewInt(0), r.Bytes(r.Intn(70)))
-				tj = appTxJ{Kind: "evm", From: key, Nonce: nonce, Ok: true, Raw: hexs(signAppTx(tx, key, false)), Note: note + " call " + to.Hex()}
+				payload := r.Bytes(r.Intn(70))
+				pnote := ""
+				if r.Bool() {
+					// payloads in the shape the precompiles parse: 32-byte words holding lengths and field
+					// elements at and beyond every boundary, followed by some data
+					payload, pnote = precompilePayload(r), " structured-payload"
+					if r.Bool() {
+						to = common.BytesToAddress([]byte{byte([]int{5, 5, 5, 1, 6, 7, 8, 8, 2, 4}[r.Intn(10)])})
+						if to[19] == 5 {
+							payload, pnote = modexpPayload(r), " modexp-lengths"
+						}
+					}
+				}
+				tx := etypes.NewTransaction(nonce, to, big.NewInt(0), 1000000, big.NewInt(0), payload)
+				tj = appTxJ{Kind: "evm", From: key, Nonce: nonce, Ok: true, Raw: hexs(signAppTx(tx, key, false)), Note: note + " call " + to.Hex() + pnote}
 			case k < 8: // creation, succeeding or failing
 				init := counterInit
-				switch r.Intn(5) {
+				switch r.Intn(7) {
 				case 0:
 					init = []byte{0xfe}
 				case 1, 2:
 					init = loggerInit
+				case 3, 4:
+					init = hashrecInit
 				}
 				creations = append(creations, created{key, nonce})
 				tx := etypes.NewContractCreation(nonce, big.NewInt(0), 1000000, big.NewInt(0), init)
@@ -159,8 +185,97 @@ func genAppCase(r *Rng, i int) *appCase {
 		copy(next, pending)
 		c.Blocks = append(c.Blocks, blk)
 		c.Restarts = append(c.Restarts, r.Chance(1, 3))
+		c.Reexec = append(c.Reexec, r.Chance(1, 4))
 	}
 	return c
+}
+
+// precompilePayload builds call data out of 32-byte words the precompiled contracts read as lengths,
+// curve points and scalars: zero, small, 2^32, 2^56, 2^62, 2^63, 2^64-1, 2^255, 2^256-1, the bn256 field
+// prime and its neighbours, then 0..96 bytes of data.  Lengths above 2^48 cannot be allocated at all,
+// so a precompile that allocates before it charges shows as a panic, not as an exhausted machine.
+func precompilePayload(r *Rng) []byte {
+	word := func() []byte {
+		w := make([]byte, 32)
+		switch r.Intn(12) {
+		case 0:
+		case 1:
+			w[31] = byte(r.Intn(4))
+		case 2:
+			w[31] = byte(32 * (1 + r.Intn(3)))
+		case 3:
+			w[27] = 1 // 2^32
+		case 4:
+			w[24] = 1 // 2^56
+		case 5:
+			w[24] = 0x40 // 2^62
+		case 6:
+			w[24] = 0x80 // 2^63
+		case 7:
+			for i := 24; i < 32; i++ {
+				w[i] = 0xff
+			}
+		case 8:
+			w[0] = 0x80
+		case 9:
+			for i := range w {
+				w[i] = 0xff
+			}
+		case 10:
+			p, _ := new(big.Int).SetString("21888242871839275222246405745257275088696311157297823662689037894645226208583", 10)
+			p.Add(p, big.NewInt(int64(r.Intn(3)-1)))
+			copy(w, common.LeftPadBytes(p.Bytes(), 32))
+		default:
+			copy(w, r.Bytes(32))
+		}
+		return w
+	}
+	var out []byte
+	for i := 0; i < 1+r.Intn(7); i++ {
+		out = append(out, word()...)
+	}
+	return append(out, r.Bytes(r.Intn(97))...)
+}
+
+// modexpPayload: the three length words of the modular-exponentiation precompile in every combination of
+// zero, small and unallocatable, then data
+const mxH = -1
+
+var modexpPats = [][3]int{{0, mxH, 0}, {0, 0, 0}, {3, mxH, 3}, {mxH, 0, 0}, {0, 0, mxH}, {2, 2, 2}, {0, 2, 2}, {2, 2, 0}, {mxH, mxH, mxH}, {0, mxH, 2}, {1, 33, 1}, {32, 1, 32}}
+
+func modexpPayload(r *Rng) []byte { return modexpPayloadPat(r, r.Intn(len(modexpPats)), r.Intn(5)) }
+
+// hsel picks the unallocatable length: 2^62, 2^64-1, 2^56, 2^63-1, 2^63 (from 2^63 up it is negative as an int)
+func modexpPayloadPat(r *Rng, k int, hsel int) []byte {
+	const H = mxH
+	pat := modexpPats[k]
+	var out []byte
+	for _, l := range pat {
+		w := make([]byte, 32)
+		if l == H {
+			switch hsel {
+			case 0:
+				w[24] = 0x40 // 2^62
+			case 2:
+				w[24] = 0x01 // 2^56
+			case 3:
+				w[24] = 0x7f // 2^63-1
+				for i := 25; i < 32; i++ {
+					w[i] = 0xff
+				}
+			case 4:
+				w[24] = 0x80 // 2^63
+			default:
+				for i := 24; i < 32; i++ {
+					w[i] = 0xff
+				}
+			}
+		} else {
+			w[31] = byte(l)
+		}
+		out = append(out, w...)
+	}
+	return append(out, r.Bytes(r.Intn(100))...)
 }
 
 func openApp(dir string) (*evmapp.EVMApp, error) {
@@ -177,13 +292,14 @@ func openApp(dir string) (*evmapp.EVMApp, error) {
 	return app, nil
 }
 
-func appBlock(height int64, txs []appTxJ) *gtypes.Block {
+func appBlock(height int64, txs []appTxJ, prev []byte, prevApp []byte) *gtypes.Block {
 	var raw []gtypes.Tx
 	for _, t := range txs {
 		raw = append(raw, gtypes.Tx(unhex(t.Raw)))
 	}
 	return &gtypes.Block{
-		Header: &gtypes.Header{ChainID: "verif", Height: height, Time: time.Unix(1500000000+height, 0), NumTxs: int64(len(raw)), ValidatorsHash: []byte("vals")},
+		Header: &gtypes.Header{ChainID: "verif", Height: height, Time: time.Unix(1500000000+height, 0), NumTxs: int64(len(raw)), ValidatorsHash: []byte("vals"),
+			LastBlockID: gtypes.BlockID{Hash: prev}, AppHash: prevApp},
 		Data:   &gtypes.Data{Txs: raw}, LastCommit: &gtypes.Commit{},
 	}
 }
@@ -277,10 +393,12 @@ func runAppCase(idx int, c *appCase) (string, []MonitorHit, map[string]int, bool
 	everApplied := map[string]bool{}
 	kvNow := map[string]string{}
 	nextID := 0
+	var prevHash, prevApp []byte
 	for h, blk := range c.Blocks {
 		height := int64(h + 1)
 		evmapp.VerifSetValidateRoutines(8)
-		oa := execBlock(a, appBlock(height, blk))
+		blkA := appBlock(height, blk, prevHash, prevApp)
+		oa := execBlock(a, blkA)
 		if oa.panic != "" {
 			hit("app-panic", fmt.Sprintf("block %d: %s", height, oa.panic))
 			blocks = append(blocks, "(9)")
@@ -299,10 +417,30 @@ func runAppCase(idx int, c *appCase) (string, []MonitorHit, map[string]int, bool
 		}
 		evmapp.VerifSetValidateRoutines(c.Workers)
 		dist[fmt.Sprintf("workers=%d", c.Workers)]++
-		ob := execBlock(b, appBlock(height, blk))
+		ob := execBlock(b, appBlock(height, blk, prevHash, prevApp))
 		if ob.panic != "" {
 			hit("app-panic", fmt.Sprintf("replica block %d: %s", height, ob.panic))
 			break
+		}
+		if h < len(c.Reexec) && c.Reexec[h] {
+			// the process dies after the application's commit of this block and before the node's own:
+			// the block is executed once more over the same database and must give the same result
+			dist["replica-reexecutes-block"]++
+			b.Stop()
+			nb, err := openApp(dirB)
+			if err != nil {
+				hit("replica-restart-failed", err.Error())
+				break
+			}
+			b = nb
+			ob2 := execBlock(b, appBlock(height, blk, prevHash, prevApp))
+			if ob2.panic != "" {
+				hit("app-panic", fmt.Sprintf("replica block %d executed again: %s", height, ob2.panic))
+				break
+			}
+			if !bytes.Equal(ob2.app, ob.app) || !bytes.Equal(ob2.rcpt, ob.rcpt) || len(ob2.valid) != len(ob.valid) {
+				hit("replica-divergence kind=re-execution", fmt.Sprintf("block %d executed a second time after a restart: app hash %x / %x, receipts hash %x / %x, %d / %d applied", height, ob.app, ob2.app, ob.rcpt, ob2.rcpt, len(ob.valid), len(ob2.valid)))
+			}
 		}
 		ctx := fmt.Sprintf("block %d (replica with %d verifier routines, restarted before this block: %v)", height, c.Workers, c.Restarts[h])
 		if !bytes.Equal(oa.app, ob.app) {
@@ -386,7 +524,7 @@ func runAppCase(idx int, c *appCase) (string, []MonitorHit, map[string]int, bool
 		}
 		// replica C executes the block without the transactions A reported invalid
 		evmapp.VerifSetValidateRoutines(8)
-		oc := execBlock(cc, appBlock(height, kept))
+		oc := execBlock(cc, appBlock(height, kept, prevHash, prevApp))
 		if oc.panic != "" {
 			hit("app-panic", fmt.Sprintf("filtered block %d: %s", height, oc.panic))
 			break
@@ -398,6 +536,8 @@ func runAppCase(idx int, c *appCase) (string, []MonitorHit, map[string]int, bool
 		} else if fmt.Sprint(oa.nonces) != fmt.Sprint(oc.nonces) {
 			hit("invalid-tx-changed-state kind=nonce", fmt.Sprintf("block %d: %v vs %v", height, oa.nonces, oc.nonces))
 		}
+		prevHash = blkA.Hash() // the blocks chain: BLOCKHASH of the parent is this hash
+		prevApp = oa.app
 		blocks = append(blocks, sxL(sxL(txs...), sxL(sxU(oa.nonces[0]), sxU(oa.nonces[1]), sxU(oa.nonces[2]))))
 	}
 	return sxL(blocks...), hits, dist, applied >= 2
@@ -406,7 +546,7 @@ func runAppCase(idx int, c *appCase) (string, []MonitorHit, map[string]int, bool
 func init() {
 	engines["evmapp"] = func(args []string) error {
 		return runGenericEngine("evmapp",
-			"case = 2..6 blocks of 0..6 transactions each for the real EVM application on a fresh LevelDB directory: signed calls to arbitrary addresses (every precompile address and the governance precompile included, random payloads), contract creations with succeeding and failing init code, key-value transactions with well-formed and malformed payloads, value transfers the sender cannot fund, stale, future and next nonces from three senders, unrecoverable signatures, garbage bytes, the empty byte string, and the exact bytes of earlier transactions again; a second replica executes the same blocks with 1/2/4/8/16 verifier routines and is stopped and reopened before a third of the blocks; a third replica executes each block without the transactions the first reported invalid; compared: app hash, receipts hash, verdict lists and query results (nonces, keys, receipts) between replicas, app hash and nonces with the filtered replica, receipts present exactly for applied transactions, key queries against the last applied write; per transaction the verdict and per block the senders' nonces go to the model; distinct = case line; non-trivial = at least two transactions applied",
+			"case = 2..6 blocks of 0..6 transactions each for the real EVM application on a fresh LevelDB directory: signed calls to arbitrary addresses (every precompile address and the governance precompile included; random payloads, and payloads of 32-byte words holding lengths and field elements at and beyond every boundary), contract creations with succeeding and failing init code (a counter, a logger, and a contract that stores what BLOCKHASH answers for the last three blocks; the blocks chain through their real hashes), key-value transactions with well-formed and malformed payloads, value transfers the sender cannot fund, stale, future and next nonces from three senders, unrecoverable signatures, garbage bytes, the empty byte string, and the exact bytes of earlier transactions again; a second replica executes the same blocks with 1/2/4/8/16 verifier routines and is stopped and reopened before a third of the blocks, and after a quarter of the blocks it is stopped, reopened and made to execute that block a second time (the recovery path: each header names the app hash before it); a third replica executes each block without the transactions the first reported invalid; compared: app hash, receipts hash, verdict lists and query results (nonces, keys, receipts) between replicas, app hash and nonces with the filtered replica, receipts present exactly for applied transactions, key queries against the last applied write; per transaction the verdict and per block the senders' nonces go to the model; distinct = case line; non-trivial = at least two transactions applied",
 			args,
 			func(r *Rng, i int) interface{} { return genAppCase(r, i) },
 			func(f string) (interface{}, error) {
